@@ -5,6 +5,7 @@ package internal
 import (
 	"context"
 	"fmt"
+	"time"
 	"sync/atomic"
 	"testing"
 )
@@ -142,6 +143,95 @@ func TestVerifRingStore(t *testing.T) {
 		}
 		dump()
 		VerifYield.Store(nil)
+		s.Close()
+	}
+}
+
+// C08 "every event it delivers ... is delivered once", with the policy lock busy: reader A fills a stripe, takes the batch
+// and waits for the policy lock; the stripe refills and reader B arrives.  Whatever B does, when the lock is released no
+// hit may reach the policy twice.  The keys are chosen so that their counters in the frequency sketch do not overlap: the
+// sketch then counts deliveries per key exactly.
+func TestVerifRingLateBatch(t *testing.T) {
+	tr := vopen(t, "ringlate")
+	defer tr.close()
+	tr.init(0)
+	VerifYield.Store(nil)
+	trials := vscale(6, 60)
+	for c := 0; c < trials; c++ {
+		vsetNow(1000 + int64(c))
+		vsetRand(0) // every Get uses stripe 0
+		s := vnewStore(&StoreOptions[int, int]{MaxSize: 4096})
+		// 32 keys with pairwise disjoint sketch counters
+		probe := NewCountMinSketch()
+		probe.EnsureCapacity(uint(len(s.policy.sketch.Table)))
+		var keys []int
+		for k := 1 + 1000*c; len(keys) < 2*capacity && k < 1000*c+100000; k++ {
+			h := s.hasher.Hash(k)
+			clean := probe.Estimate(h) == 0
+			if clean {
+				probe.Add(h)
+				for _, kk := range keys {
+					if probe.Estimate(s.hasher.Hash(kk)) != 1 {
+						clean = false
+					}
+				}
+				if probe.Estimate(h) != 1 {
+					clean = false
+				}
+			}
+			if !clean {
+				// start the probe over without this key
+				probe = NewCountMinSketch()
+				probe.EnsureCapacity(uint(len(s.policy.sketch.Table)))
+				for _, kk := range keys {
+					probe.Add(s.hasher.Hash(kk))
+				}
+				continue
+			}
+			keys = append(keys, k)
+		}
+		for _, k := range keys {
+			s.Set(k, k, 1, 0)
+		}
+		vdrainWrites(s)
+		est := func(k int) uint { return s.policy.sketch.Estimate(s.hasher.Hash(k)) }
+		base := map[int]uint{}
+		for _, k := range keys {
+			base[k] = est(k)
+		}
+		s.policyMu.Lock()
+		for i := 0; i < capacity-1; i++ {
+			s.Get(keys[i])
+		}
+		aDone, bDone := make(chan struct{}), make(chan struct{})
+		go func() { s.Get(keys[capacity-1]); close(aDone) }() // fills the stripe, takes the batch, waits for the policy lock
+		vwaitParked(").drainRead(", 1, 5*time.Second)
+		for i := capacity; i < 2*capacity-1; i++ {
+			s.Get(keys[i])
+		}
+		go func() { s.Get(keys[2*capacity-1]); close(bDone) }()
+		select {
+		case <-bDone: // B dropped its hit or queued it: fine
+		case <-time.After(50 * time.Millisecond): // B waits for the policy lock too
+		}
+		s.policyMu.Unlock()
+		for _, ch := range []chan struct{}{aDone, bDone} {
+			select {
+			case <-ch:
+			case <-time.After(10 * time.Second):
+				tr.viol("C10: a Get that found its stripe full did not return within 10 s after the policy lock was released")
+			}
+		}
+		dup := 0
+		for _, k := range keys {
+			if d := est(k) - base[k]; d > 1 {
+				dup++
+				if dup == 1 {
+					tr.viol(fmt.Sprintf("C08: key %d was read once while the policy lock was busy, but the policy was told of %d hits (sketch counters of the chosen keys do not overlap): a hit was delivered twice", k, d))
+				}
+			}
+		}
+		tr.op("trial", ss("84", i64(int64(len(keys)))), ss(i64(int64(dup))))
 		s.Close()
 	}
 }
